@@ -5,6 +5,7 @@
 package media
 
 import (
+	"github.com/cnotch/ipchub/utils/simhook"
 	"errors"
 	"strings"
 	"sync/atomic"
@@ -177,6 +178,7 @@ func (s *Stream) close(status int32) error {
 		status = StreamClosed
 	}
 	atomic.StoreInt32(&s.status, status)
+	simhook.Y("stream.close.afterStatus")
 
 	// 关闭 hls
 	if s.tsMuxer != nil {
@@ -192,6 +194,7 @@ func (s *Stream) close(status int32) error {
 
 	// 关闭 av.Frame 转换器
 	s.rtpDemuxer.Close()
+	simhook.Y("stream.close.betweenSweeps")
 
 	s.consumptions.RemoveAndCloseAll()
 	s.cache.Reset()
@@ -208,6 +211,7 @@ func (s *Stream) WriteRtpPacket(packet *rtp.Packet) error {
 	atomic.AddUint64(&s.size, uint64(packet.Size()))
 
 	keyframe := s.cache.CachePack(packet)
+	simhook.Y("stream.writeRtp.betweenCacheAndSend")
 	s.consumptions.SendToAll(packet, keyframe)
 
 	s.rtpDemuxer.WriteRtpPacket(packet)
@@ -235,6 +239,7 @@ func (s *Stream) WriteFlvTag(tag *flv.Tag) error {
 	}
 
 	keyframe := s.flvCache.CachePack(tag)
+	simhook.Y("stream.writeFlv.betweenCacheAndSend")
 	s.flvConsumptions.SendToAll(tag, keyframe)
 	return nil
 }
@@ -278,10 +283,13 @@ func (s *Stream) startConsume(consumer Consumer, packetType PacketType, extra st
 		cache = s.flvCache
 	}
 
+	simhook.Y("stream.startConsume.beforeGop")
 	if useGopCache {
 		c.sendGop(cache) // 新消费者，先发送gop缓存
 	}
+	simhook.Y("stream.startConsume.betweenGopAndAdd")
 	cs.Add(c)
+	simhook.Y("stream.startConsume.betweenAddAndGo")
 
 	go c.consume()
 	return c.cid
